@@ -63,8 +63,13 @@ def queryRequested (lk : Lookup) (P : RawMap) : Bool :=
 /-- `for _, version := range versionIntersect { if version > proposedVersion {…} }` from 0 -/
 def maxOf (l : List Nat) : Nat := l.foldl (fun acc v => if v > acc then v else acc) 0
 
-/-- `slices.Sort` -/
-def sortAsc (l : List Nat) : List Nat := l.mergeSort (fun a b => decide (a ≤ b))
+/-- insertion into an ascending list -/
+def insertAsc (x : Nat) : List Nat → List Nat
+  | [] => [x]
+  | y :: ys => if x ≤ y then x :: y :: ys else y :: insertAsc x ys
+
+/-- `slices.Sort` (any correct ascending sort: `sortAsc_pairwise`, `sortAsc_perm`) -/
+def sortAsc (l : List Nat) : List Nat := l.foldr insertAsc []
 
 /-- `Server.handleProposeVersions` -/
 def serverNegotiate (lk : Lookup) (S : VMap) (P : RawMap) : SOut :=
